@@ -181,12 +181,15 @@ def load_prop(pid):
 
 def run_cases(mod, ctx, cases, timeout):
     signal.signal(signal.SIGALRM, _alarm)
+    before = getattr(mod, "BEFORE_CASE", None)
     for name, args in cases:
         ctx.case = [name, args]
         fn = getattr(mod, "case_" + name)
         signal.alarm(timeout)
         t0 = time.time()
         try:
+            if before is not None:
+                before(ctx)
             fn(ctx, **args)
             ctx.counters["cases"] += 1
             ctx.slow.append((round(time.time() - t0, 2), jsonable(ctx.case)))
